@@ -142,3 +142,23 @@ func validObjectName(name string) bool {
 
 var errInvalidObjectName = gofakes3.ErrorMessage(gofakes3.ErrInvalidArgument,
 	"object keys with empty, '.' or '..' path segments cannot be stored by this backend")
+
+// checkKeyPath verifies that objectPath (slash separated, relative to fs and
+// below root) can hold an object without clobbering another one: a file
+// system cannot store both the keys 'a' and 'a/b'. Implementations of
+// afero.Fs differ in what they do when asked to, so it is checked up front.
+func checkKeyPath(fs afero.Fs, root, objectPath string) error {
+	root = path.Clean(root)
+	for dir := path.Dir(objectPath); dir != root && dir != "." && dir != "/"; dir = path.Dir(dir) {
+		if stat, err := fs.Stat(filepath.FromSlash(dir)); err == nil && !stat.IsDir() {
+			return errKeyConflict
+		}
+	}
+	if stat, err := fs.Stat(filepath.FromSlash(objectPath)); err == nil && stat.IsDir() {
+		return errKeyConflict
+	}
+	return nil
+}
+
+var errKeyConflict = gofakes3.ErrorMessage(gofakes3.ErrInvalidArgument,
+	"the key is a path prefix of an existing key or extends one; this backend cannot store both")
